@@ -101,6 +101,7 @@ fn c18(c: &Case) {
 /// C05(a): joints=6 + robot; oracle: axes of joints 4 and 6 (z columns of link frames 4 and 6 of the independent chain)
 /// are collinear within 0.01 degree  <=>  reported singular. Cases within 1e-9 rad of the band edge do not count.
 fn c05(c: &Case) {
+    if c.s("search") == "true" { return c05_search(c); }
     let (o, p) = opw_of(c); let j = c.a6("joints");
     let k = OPWKinematics::new(p);
     let got = k.kinematic_singularity(&j).is_some();
@@ -284,6 +285,18 @@ fn c17(c: &Case) {
             for (i, j) in pairs { if (dist(&pa[i], &pa[j]) - dist(&pb[i], &pb[j])).abs() > 0.005 + 1e-9 { off = true; } }
             if off { if let Ok(_) = Frame::frame(p3(&pa[0]), p3(&pa[1]), p3(&pa[2]), p3(&pb[0]), p3(&pb[1]), p3(&pb[2])) { bad.push("point triples whose distances differ by more than 5 mm accepted".into()); } }
         }
+        "mismatch_search" => {
+            // congruent triple with ONE pair distance changed by 2 cm (the other two kept): must be rejected, for each of the three pairs
+            let base = [[0.0, 0.0, 0.0], [1.0, 0.0, 0.0], [0.3, 0.8, 0.0]];
+            let d = |a: &V3, b: &V3| dist(a, b);
+            // pair (1,2): swing point 2 around point 0 keeping |01|,|02| ; pair (0,1): swing point 0 around 2 ... generic: rotate one point about another in the plane
+            let rot = |p: &V3, c0: &V3, ang: f64| -> V3 { let (s, c_) = ang.sin_cos(); let x = p[0] - c0[0]; let y = p[1] - c0[1]; [c0[0] + c_ * x - s * y, c0[1] + s * x + c_ * y, p[2]] };
+            for (mv_, pivot) in [(2usize, 0usize), (1, 2), (0, 1)] {
+                let mut q = base; q[mv_] = rot(&base[mv_], &base[pivot], 0.05);
+                let changed: Vec<f64> = [(0, 1), (0, 2), (1, 2)].iter().map(|(i, j)| (d(&base[*i], &base[*j]) - d(&q[*i], &q[*j])).abs()).collect();
+                if changed.iter().any(|x| *x > 0.0051) { if Frame::frame(p3(&base[0]), p3(&base[1]), p3(&base[2]), p3(&q[0]), p3(&q[1]), p3(&q[2])).is_ok() { bad.push(format!("non-congruent triple accepted (distance changes {:?})", changed)); } }
+            }
+        }
         "translation" => { let p = c.v("p"); let q = c.v("q"); let f = iso_of(&Frame::translation(Point3::new(p[0], p[1], p[2]), Point3::new(q[0], q[1], q[2])));
             if !close_iso(&f, &Iso { r: I3, t: [q[0] - p[0], q[1] - p[1], q[2] - p[2]] }, 1e-9) { bad.push("translation frame wrong".into()); } }
         _ => {
@@ -296,4 +309,24 @@ fn c17(c: &Case) {
         }
     }
     bad.dedup(); for b in bad.iter().take(5) { println!("diff={}", b); } println!("reproduced={}", !bad.is_empty());
+}
+
+/// C05 (continuity): exactly singular J5 = 0, previous realises the pose, J4/J6 anywhere in +-360 deg: the first continuation answer is previous.
+fn c05_search(c: &Case) {
+    let mut bad: Vec<String> = Vec::new(); let mut tried = 0;
+    for (o, p) in crate::battery::robots(c) {
+        let k = OPWKinematics::new(p);
+        let grid: Vec<f64> = (-355..=355).step_by(30).map(|a| (a as f64).to_radians()).collect();
+        for &j4 in &grid { for &j6 in &grid {
+            let j5 = o.off[4] * o.sign[4];   // geometric J5 = 0
+            let prev = [0.17, 0.35, 0.52, j4, j5, j6]; tried += 1;
+            let pose = pose_of(&fk(&o, &prev));
+            let sols = k.inverse_continuing(&pose, &prev);
+            match sols.first() {
+                None => bad.push(format!("no answer for the singular pose of {:?}", prev)),
+                Some(f) => { if (0..6).any(|j| (f[j] - prev[j]).abs() > 1e-5) { bad.push(format!("first answer {:?} differs from the previous joints {:?} that realise the singular pose", f, prev)); } }
+            }
+        } }
+    }
+    println!("native_cases={}", tried); bad.dedup(); for b in bad.iter().take(4) { println!("diff={}", b); } println!("reproduced={}", !bad.is_empty());
 }
